@@ -339,7 +339,17 @@ func (e newTorrentEvent) apply(s *state) {
 		ok = false
 	}
 	if !ok {
-		var err error
+		// The torrent was created outside of the event loop, so a removal
+		// applied since then may have deleted the files under it, and another
+		// request may have created them anew. The piece statuses it holds in
+		// memory would then describe a file which no longer exists. Reload it
+		// here, where no removal can interleave.
+		t, err := s.sched.torrentArchive.GetTorrent(e.namespace, e.torrent.Digest())
+		if err != nil {
+			e.errc <- errTorrentStale
+			return
+		}
+		e.torrent = t
 		ctrl, err = s.addTorrent(e.namespace, e.torrent, true)
 		if err != nil {
 			e.errc <- err
